@@ -50,9 +50,10 @@ Placed(e, g) == \E r \in MRecs(e, g) : r.c >= 0
 Sited(e, g) == e.serial[g].s >= 0 /\ e.serial[g].sc >= 0
 (* placed molecules without any site location (the code's `continue` arm): no bin "contains its cut site" *)
 NoSiteMols(e) == { g \in Mols(e) : Placed(e, g) /\ ~Sited(e, g) }
-(* sited molecules of a tiled contig whose site lies in no bin at all (outside [0, len)) *)
+(* sited molecules of a tiled contig whose site is not a base of the contig (site < 0 or >= length): no bin of any tiling of *)
+(* the genome can contain it; observation only *)
 OutsideMols(e) == { g \in Mols(e) : /\ Sited(e, g) /\ \E t \in RegionTasks(e) : t.c = e.serial[g].sc
-                                    /\ Owners(e, e.serial[g].sc, e.serial[g].s) = {} }
+                                    /\ (e.serial[g].s < 0 \/ e.serial[g].s >= CLen(e, e.serial[g].sc)) }
 SkipKeys(e) == UNION { MKeys(e, g) : g \in NoSiteMols(e) \cup OutsideMols(e) }
 
 (* extent of a fragment = cells covered by its reads and its cut site: "one fragment length" of the statement *)
@@ -90,7 +91,10 @@ OwnerVerdict(e) ==
         O == [g \in S |-> Owners(e, e.serial[g].sc, e.serial[g].s)]
         W == [g \in S |-> { j \in DOMAIN e.jobs : JK[j] \cap MKeys(e, g) # {} }]
         G == { g \in S : Cardinality(O[g]) = 1 }
-    IN IF \A g \in G : W[g] = O[g] THEN "ok"
+        \* bases of a tiled contig that belong to no bin (only the repo's own tiler can do that to an in-scope run)
+        U == { g \in S \ OutsideMols(e) : O[g] = {} /\ \E t \in RegionTasks(e) : t.c = e.serial[g].sc }
+    IN IF U # {} THEN "Inv_C08_OneOwner_site_in_no_bin"
+       ELSE IF \A g \in G : W[g] = O[g] THEN "ok"
        ELSE IF \E g \in G : W[g] = {} THEN "Inv_C08_OneOwner_unwritten"
        ELSE IF \E g \in G : ~(W[g] \subseteq O[g]) /\ O[g] \subseteq W[g] THEN "Inv_C08_OneOwner_also_foreign_job"
        ELSE "Inv_C08_OneOwner_wrong_job"
